@@ -1,31 +1,78 @@
 (* C15 - Stock splits are value-neutral.
-   PARTIAL.  Proved here: value-neutrality of the two declarative rules the
-   ledger is proved to follow (C01: average-cost rule; C02: superficial-loss
-   rule quantities), for restated rows and across an inserted split given as
-   one row per affiliate in any order; and, for WHOLE RUNS of the model, the
-   case where the split precedes every row (C15_whole_history_restated).
-   NOT proved: the whole-run statement for a split inserted at an arbitrary
-   position in the middle of a history (C15_full):
-   that composition is checked on the implementation itself by the
-   metamorphic part of the check (h vs h' for random positions / ratios /
-   global or per-affiliate split rows).  C15_full below is the statement that
-   is not proved. *)
+   Proved here for WHOLE RUNS of the model under exact arithmetic:
+   * C15_inserted_split: a split inserted at ANY position of a history, given
+     as one f-for-1 row per affiliate (what the global-split expansion
+     produces), with every later row restated (shares x f, per-share amounts
+     / f): every row before the split keeps its delta verbatim, every later
+     row keeps its capital gain, denied amount, cost base and generated
+     adjustments (its share figures scale), the outcome (accepted, or rejected
+     / stopped at the same row for the same reason) is the same, and the
+     inserted rows themselves carry no gain and leave every cost base alone.
+   * C15_whole_history_restated: the case where the split precedes every row
+     (opening position restated as well).
+   * value-neutrality of the two declarative rules (C01 average-cost rule,
+     C02 superficial-loss rule quantities), kept from the earlier partial
+     result.
+   Hypotheses of C15_inserted_split (all hold for what the program builds):
+   rows sorted around the split (earlier rows settle on or before the split's
+   settlement date dS, later rows on or after it); every affiliate of the
+   history has a split row (ids_of S), once (NoDup); an affiliate's registered
+   flag is a function of its id ([regof], as in the program where it is read
+   off the "(R)" suffix); no whole-number-only reverse splits among the
+   restated rows (their fraction test is deliberately not scale-free); f > 0;
+   no opening position (init = None; with one, see C15_whole_history_restated
+   and C16).  Rounded arithmetic: covered by the metamorphic differential on
+   the implementation and by C01's per-operation error bound. *)
 From Coq Require Import List NArith ZArith QArith Qcanon Bool Permutation.
 From ACB Require Import Base.Outcome Base.QcExtra Base.Arith Model.Tx Model.Ledger Model.Sfl Model.DeltaList
-     Spec.AvgCost Spec.SflRule Proofs.C02Scan Proofs.C15Scale Proofs.C15Run.
+     Spec.AvgCost Spec.SflRule Proofs.C02Scan Proofs.C15Scale Proofs.C15Run Proofs.C15Full.
 Import ListNotations.
 
-(* the full statement (one row per affiliate variant), kept visible *)
+(* vocabulary (defined in Proofs/C15Full.v, C15Run.v, C15Scale.v):
+   fsplit f dS x   : x is a split row  Split po pr false  with pr <> 0, po / pr = f, settling on dS
+   ids_of S        : the affiliate ids of the rows S
+   goodaf regof af : af_reg af = regof (af_id af)
+   scale_tx f      : shares x f, per-share amounts / f (split rows and SfLA totals unchanged)
+   sc_delta f d    : d with its row restated, its share balances x f, its SfL ratio terms x f;
+                     d_gain, s_acb and sf_amount untouched
+   neutral d       : d_gain d = None /\ d_sfl d = None /\ s_acb (d_post d) = s_acb (d_pre d)
+   no_int_only t   : t is not a whole-number-only split *)
 Definition same_money (d d' : delta) : Prop :=
   d_gain d = d_gain d' /\ s_acb (d_post d) = s_acb (d_post d') /\
   option_map sf_amount (d_sfl d) = option_map sf_amount (d_sfl d').
-Definition C15_full : Prop :=
-  forall f ids splits pre post ds,
-    (0 < f)%Qc -> split_rows_for f ids splits ->
-    Forall (fun x => In (af_id (t_af x)) ids) (pre ++ post) ->
-    run exact None (pre ++ post) = (ds, None) ->
-    exists ds', run exact None (pre ++ splits ++ map (scale_tx f) post) = (ds', None) /\
-                Forall2 same_money ds (filter (fun d => negb (existsb (fun s => N.eqb (t_ri s) (t_ri (d_tx d)) && is_split (t_act (d_tx d))) splits)) ds').
+
+Theorem C15_inserted_split : forall f dS regof S pre post,
+  (0 < f)%Qc ->
+  Forall (fsplit f dS) S -> NoDup (ids_of S) ->
+  Forall (fun x => In (af_id (t_af x)) (ids_of S) /\ goodaf regof (t_af x)) (pre ++ S ++ post) ->
+  Forall (fun x => (t_sd x <= dS)%Z) pre -> Forall (fun x => (dS <= t_sd x)%Z) post ->
+  Forall no_int_only post ->
+  exists ds1 ds2 dss o,
+    run exact None (pre ++ post) = (ds1 ++ ds2, o) /\
+    run exact None (pre ++ S ++ map (scale_tx f) post) = (ds1 ++ dss ++ map (sc_delta f) ds2, o) /\
+    Forall neutral dss /\
+    (map d_tx dss = S \/ (dss = [] /\ ds2 = [] /\ o <> None)).
+Proof. exact C15Full.inserted_split. Qed.
+Check C15_inserted_split : forall f dS regof S pre post,
+  (0 < f)%Qc ->
+  Forall (fsplit f dS) S -> NoDup (ids_of S) ->
+  Forall (fun x => In (af_id (t_af x)) (ids_of S) /\ goodaf regof (t_af x)) (pre ++ S ++ post) ->
+  Forall (fun x => (t_sd x <= dS)%Z) pre -> Forall (fun x => (dS <= t_sd x)%Z) post ->
+  Forall no_int_only post ->
+  exists ds1 ds2 dss o,
+    run exact None (pre ++ post) = (ds1 ++ ds2, o) /\
+    run exact None (pre ++ S ++ map (scale_tx f) post) = (ds1 ++ dss ++ map (sc_delta f) ds2, o) /\
+    Forall neutral dss /\
+    (map d_tx dss = S \/ (dss = [] /\ ds2 = [] /\ o <> None)).
+Print Assumptions C15_inserted_split.
+
+(* the restated delta of a row shows the same money *)
+Theorem C15_restated_row_same_money : forall f d, same_money d (sc_delta f d).
+Proof.
+  intros f d. unfold same_money, sc_delta. cbn. repeat split. destruct (d_sfl d); reflexivity.
+Qed.
+Check C15_restated_row_same_money : forall f d, same_money d (sc_delta f d).
+Print Assumptions C15_restated_row_same_money.
 
 (* Whole runs of the model: restating EVERY share quantity (x f) and every
    per-share amount (/ f) of a history, rows and opening position alike -
@@ -126,6 +173,24 @@ Definition money (l : list tx) :=
   map (fun d => (option_map (fun g => (Qnum (this g), Qden (this g))) (d_gain d),
                  option_map (fun g => (Qnum (this g), Qden (this g))) (s_acb (d_post d))))
       (filter (fun d => negb (is_split (t_act (d_tx d)))) (fst (run exact None l))).
+Example C15_inserted_split_hypotheses_hold :
+  Forall (fsplit (q 3 2) 105) ex_splits /\ NoDup (ids_of ex_splits) /\
+  Forall (fun x => In (af_id (t_af x)) (ids_of ex_splits) /\ goodaf (fun _ => false) (t_af x)) (ex_pre ++ ex_splits ++ ex_post) /\
+  Forall (fun x => (t_sd x <= 105)%Z) ex_pre /\ Forall (fun x => (105 <= t_sd x)%Z) ex_post /\
+  Forall no_int_only ex_post.
+Proof.
+  assert (Eq : (q 3 1 / q 2 1)%Qc = q 3 2) by (apply Qc_is_canon; reflexivity).
+  assert (Hne : q 2 1 <> 0%Qc) by discriminate.
+  split; [|split; [|split; [|split; [|split]]]].
+  - repeat constructor; exists (q 3 1), (q 2 1); repeat split; auto.
+  - repeat constructor; cbn; intuition; discriminate.
+  - unfold ex_pre, ex_splits, ex_post; cbn [app].
+    repeat (apply Forall_cons; [split; [cbn; auto | reflexivity]|]). apply Forall_nil.
+  - repeat constructor; cbn; discriminate.
+  - repeat constructor; cbn; discriminate.
+  - repeat constructor.
+Qed.
+
 Example C15_nonvacuous :
   split_rows_for (q 3 2) [1003%N; 1000%N] ex_splits /\
   money (ex_pre ++ ex_splits ++ map (scale_tx (q 3 2)) ex_post) = money (ex_pre ++ ex_post) /\
